@@ -79,15 +79,18 @@ pub struct Snap { pub cache: Map<PV, Arc<String>>, pub plugins: Set<PV> }
 /// one insertion into plugin_fixture_files: `by` = the file being processed, `cached` = the marked module was a
 /// file_cache key at that moment (=> queued for re-analysis)
 pub struct Mark { pub by: PV, pub cached: bool }
+/// where a queued module came from: `by` was being examined while file_cache was `cache` and had an import
+/// (star, explicit, pytest_plugins) resolving to it
+pub struct Src { pub by: PV, pub cache: Map<PV, Arc<String>> }
 /// one call of analyze_file_fresh (cleanup == false) / analyze_file (cleanup == true): canonical path, text handed
 /// over, and the file_cache / plugin set the analysis started from
 pub struct AStep { pub f: PV, pub text: Seq<char>, pub cleanup: bool, pub cache: Map<PV, Arc<String>>, pub plugins: Set<PV> }
 pub struct Hist {
-    pub snap: Map<PV, Snap>,      // domain: the processed files
+    pub snap: Map<PV, Snap>,      // domain: the examined ("processed") files; value: the state of the LAST examination
     pub why: Map<PV, Mark>,       // domain: the modules newly marked as plugin files
-    pub src: Map<PV, PV>,         // discovered module -> a processed file one of whose imports resolved to it
+    pub src: Map<PV, Src>,        // queued module -> an examined file one of whose imports resolved to it
     pub tr: Seq<AStep>,           // the analyses, in execution order
-    pub nfresh: int,              // tr[0..nfresh): analyze_file_fresh of discovered modules; tr[nfresh..): re-analyses
+    pub nfresh: int,              // tr[0..nfresh): analyses of discovered modules; tr[nfresh..): re-analyses of marked modules
 }
 
 // ---- file_cache evolution: analyze_file* = insert under the canonical path, then evict_cache_if_needed
@@ -114,9 +117,11 @@ pub proof fn lemma_chain_push(c0: Map<PV, Arc<String>>, tr: Seq<AStep>, now: Map
 }
 
 // ---- one-step plugin propagation and discovery of a processed file
-pub open spec fn known(q: Set<PV>, cache: Map<PV, Arc<String>>, h: PV) -> bool { q.contains(h) || cache.contains_key(h) }
-/// (P) if f was a plugin file when it was processed, every star-import / pytest_plugins target of f is a plugin file;
-/// (D) every import target of f (star, explicit, pytest_plugins) is queued/processed or was cached at that moment
+/// an import target is accounted for: it is queued for examination (or already examined).  Since the repair of
+/// F-14c (commit 415c9c5) being a file_cache key is no longer an excuse: cached targets are queued too.
+pub open spec fn known(q: Set<PV>, cache: Map<PV, Arc<String>>, h: PV) -> bool { q.contains(h) }
+/// (P) if f was a plugin file when it was examined, every star-import / pytest_plugins target of f is a plugin file;
+/// (D) every import target of f (star, explicit, pytest_plugins) is queued / examined
 #[verifier::opaque]
 pub open spec fn file_done(s: Snap, f: PV, plugins: Set<PV>, q: Set<PV>) -> bool {
     &&& s.plugins.contains(f) ==> forall|h: PV| #[trigger] edge(env_of(s.cache), f, h) ==> plugins.contains(h)
@@ -139,7 +144,7 @@ pub proof fn lemma_done_mono(snap: Map<PV, Snap>, pl: Set<PV>, q: Set<PV>, cur: 
 }
 /// a new file is taken from the worklist
 pub proof fn lemma_done_begin(snap: Map<PV, Snap>, pl: Set<PV>, q: Set<PV>, c: PV, s: Snap)
-    requires done_ok(snap, pl, q, None), !snap.contains_key(c) ensures done_ok(snap.insert(c, s), pl, q, Some(c))
+    requires done_ok(snap, pl, q, None) ensures done_ok(snap.insert(c, s), pl, q, Some(c))
 { reveal(done_ok); }
 /// ... and is finished
 pub proof fn lemma_done_end(snap: Map<PV, Snap>, pl: Set<PV>, q: Set<PV>, c: PV)
@@ -219,35 +224,51 @@ pub proof fn lemma_snap_ok_add(snap: Map<PV, Snap>, p0: Set<PV>, pl: Set<PV>, c:
 { reveal(snap_ok); }
 
 // ---- the marks
-/// h was marked while the plugin file m.by was being processed, through a star import / pytest_plugins entry of it
+/// h was marked while the plugin file m.by was being examined, through a star import / pytest_plugins entry of it
 pub open spec fn mark_ok(snap: Map<PV, Snap>, m: Mark, h: PV) -> bool {
     snap.contains_key(m.by) && snap[m.by].plugins.contains(m.by) && edge(env_of(snap[m.by].cache), m.by, h)
     && m.cached == snap[m.by].cache.contains_key(h) && canon(h) == h && scan_universe().contains(h)
 }
+/// pset = the files currently marked processed.  A marker is a plugin file, so it is never un-processed and examined
+/// again: its snapshot (which mark_ok reads) is final.
 #[verifier::opaque]
-pub open spec fn why_ok(snap: Map<PV, Snap>, why: Map<PV, Mark>, p0: Set<PV>, pl: Set<PV>) -> bool {
+pub open spec fn why_ok(snap: Map<PV, Snap>, why: Map<PV, Mark>, p0: Set<PV>, pl: Set<PV>, pset: Set<PV>) -> bool {
     &&& pl == p0.union(why.dom())
     &&& p0.disjoint(why.dom())
-    &&& forall|h: PV| #[trigger] why.contains_key(h) ==> mark_ok(snap, why[h], h)
+    &&& forall|h: PV| #[trigger] why.contains_key(h) ==> mark_ok(snap, why[h], h) && pset.contains(why[h].by) && pl.contains(why[h].by)
 }
-pub proof fn lemma_why_ok_snap(snap: Map<PV, Snap>, why: Map<PV, Mark>, p0: Set<PV>, pl: Set<PV>, c: PV, s: Snap)
-    requires why_ok(snap, why, p0, pl), !snap.contains_key(c) ensures why_ok(snap.insert(c, s), why, p0, pl)
+/// a file is taken from the worklist (first time, or again after it was un-processed)
+pub proof fn lemma_why_ok_snap(snap: Map<PV, Snap>, why: Map<PV, Mark>, p0: Set<PV>, pl: Set<PV>, pset: Set<PV>, c: PV, s: Snap)
+    requires why_ok(snap, why, p0, pl, pset), !pset.contains(c) ensures why_ok(snap.insert(c, s), why, p0, pl, pset.insert(c))
 {
     reveal(why_ok);
     assert forall|h: PV| #[trigger] why.contains_key(h) implies mark_ok(snap.insert(c, s), why[h], h) by {
         assert(mark_ok(snap, why[h], h));
     }
 }
-pub proof fn lemma_why_ok_mark(snap: Map<PV, Snap>, why: Map<PV, Mark>, p0: Set<PV>, pl: Set<PV>, h: PV, m: Mark)
-    requires why_ok(snap, why, p0, pl), !pl.contains(h), mark_ok(snap, m, h)
-    ensures why_ok(snap, why.insert(h, m), p0, pl.insert(h)), !why.contains_key(h)
+/// h is marked by m.by and (if it was marked processed) un-processed
+pub proof fn lemma_why_ok_mark(snap: Map<PV, Snap>, why: Map<PV, Mark>, p0: Set<PV>, pl: Set<PV>, pset: Set<PV>, h: PV, m: Mark)
+    requires why_ok(snap, why, p0, pl, pset), !pl.contains(h), mark_ok(snap, m, h), pset.contains(m.by), pl.contains(m.by)
+    ensures why_ok(snap, why.insert(h, m), p0, pl.insert(h), pset.remove(h)), !why.contains_key(h)
 {
     reveal(why_ok);
     assert(pl.insert(h) =~= p0.union(why.insert(h, m).dom()));
 }
-pub proof fn lemma_why_pl(snap: Map<PV, Snap>, why: Map<PV, Mark>, p0: Set<PV>, pl: Set<PV>)
-    requires why_ok(snap, why, p0, pl) ensures p0.subset_of(pl)
+pub proof fn lemma_why_pl(snap: Map<PV, Snap>, why: Map<PV, Mark>, p0: Set<PV>, pl: Set<PV>, pset: Set<PV>)
+    requires why_ok(snap, why, p0, pl, pset) ensures p0.subset_of(pl)
 { reveal(why_ok); }
+/// every file currently marked processed that is a plugin file was examined as a plugin file (this is what the
+/// `processed_files.remove` of commit 402a101 buys)
+#[verifier::opaque]
+pub open spec fn asp_ok(snap: Map<PV, Snap>, pset: Set<PV>, pl: Set<PV>) -> bool {
+    forall|f: PV| #[trigger] pset.contains(f) ==> snap.contains_key(f) && (pl.contains(f) ==> snap[f].plugins.contains(f))
+}
+pub proof fn lemma_asp_add(snap: Map<PV, Snap>, pset: Set<PV>, pl: Set<PV>, c: PV, s: Snap)
+    requires asp_ok(snap, pset, pl), s.plugins == pl, !pset.contains(c) ensures asp_ok(snap.insert(c, s), pset.insert(c), pl)
+{ reveal(asp_ok); }
+pub proof fn lemma_asp_mark(snap: Map<PV, Snap>, pset: Set<PV>, pl: Set<PV>, h: PV)
+    requires asp_ok(snap, pset, pl) ensures asp_ok(snap, pset.remove(h), pl.insert(h))
+{ reveal(asp_ok); }
 /// the modules queued for re-analysis: marked while they were file_cache keys
 pub open spec fn rean_set(why: Map<PV, Mark>) -> Set<PV> { why.dom().filter(|h: PV| why[h].cached) }
 pub proof fn lemma_rean_mark(why: Map<PV, Mark>, h: PV, m: Mark)
@@ -259,38 +280,43 @@ pub proof fn lemma_rean_mark(why: Map<PV, Mark>, h: PV, m: Mark)
 }
 
 // ---- the analyses
-/// an analyze_file_fresh step: a module that exists, is readable, was not a file_cache key when its turn came
-pub open spec fn fresh_step_ok(s: AStep) -> bool {
-    !s.cleanup && !s.cache.contains_key(s.f) && fs_exists(s.f) && fs_read(s.f) == Some(s.text) && canon(s.f) == s.f
+/// an analysis of a discovered module: it exists, is readable, was not a file_cache key when its turn came
+/// (analyze_file_fresh, or analyze_file when the index already has entries for it: see post_R in the unit)
+pub open spec fn disc_step_ok(s: AStep) -> bool {
+    !s.cache.contains_key(s.f) && fs_exists(s.f) && fs_read(s.f) == Some(s.text) && canon(s.f) == s.f
 }
-pub open spec fn has_fresh(tr: Seq<AStep>, n: int, m: PV) -> bool { exists|i: int| 0 <= i < n && i < tr.len() && (#[trigger] tr[i]).f == m }
+pub open spec fn has_disc(tr: Seq<AStep>, n: int, m: PV) -> bool { exists|i: int| 0 <= i < n && i < tr.len() && (#[trigger] tr[i]).f == m }
 /// a queued file is accounted for: it was a file_cache key at the start, or it was analysed, or it could not be read
 pub open spec fn handled(c0: Map<PV, Arc<String>>, tr: Seq<AStep>, n: int, m: PV) -> bool {
-    c0.contains_key(m) || has_fresh(tr, n, m) || !fs_exists(m) || fs_read(m) is None
+    c0.contains_key(m) || has_disc(tr, n, m) || !fs_exists(m) || fs_read(m) is None
 }
 #[verifier::opaque]
 pub open spec fn handled_ok(c0: Map<PV, Arc<String>>, tr: Seq<AStep>, q: Set<PV>, nm: Set<PV>) -> bool {
     forall|m: PV| #[trigger] q.contains(m) ==> nm.contains(m) || handled(c0, tr, tr.len() as int, m)
 }
 #[verifier::opaque]
-pub open spec fn fresh_ok(tr: Seq<AStep>, q: Set<PV>, p0: Set<PV>, pl: Set<PV>) -> bool {
-    forall|i: int| 0 <= i < tr.len() ==> fresh_step_ok(#[trigger] tr[i]) && q.contains(tr[i].f) && p0.subset_of(tr[i].plugins) && tr[i].plugins.subset_of(pl)
+pub open spec fn disc_ok(tr: Seq<AStep>, q: Set<PV>, p0: Set<PV>, pl: Set<PV>) -> bool {
+    forall|i: int| 0 <= i < tr.len() ==> disc_step_ok(#[trigger] tr[i]) && q.contains(tr[i].f) && p0.subset_of(tr[i].plugins) && tr[i].plugins.subset_of(pl)
 }
-pub proof fn lemma_fresh_ok_mono(tr: Seq<AStep>, q: Set<PV>, p0: Set<PV>, pl: Set<PV>, q2: Set<PV>, pl2: Set<PV>)
-    requires fresh_ok(tr, q, p0, pl), q.subset_of(q2), pl.subset_of(pl2) ensures fresh_ok(tr, q2, p0, pl2)
-{ reveal(fresh_ok); }
-pub proof fn lemma_fresh_ok_push(tr: Seq<AStep>, q: Set<PV>, p0: Set<PV>, pl: Set<PV>, s: AStep)
-    requires fresh_ok(tr, q, p0, pl), fresh_step_ok(s), q.contains(s.f), p0.subset_of(s.plugins), s.plugins.subset_of(pl)
-    ensures fresh_ok(tr.push(s), q, p0, pl)
-{ reveal(fresh_ok); }
+pub proof fn lemma_disc_ok_mono(tr: Seq<AStep>, q: Set<PV>, p0: Set<PV>, pl: Set<PV>, q2: Set<PV>, pl2: Set<PV>)
+    requires disc_ok(tr, q, p0, pl), q.subset_of(q2), pl.subset_of(pl2) ensures disc_ok(tr, q2, p0, pl2)
+{ reveal(disc_ok); }
+pub proof fn lemma_disc_ok_push(tr: Seq<AStep>, q: Set<PV>, p0: Set<PV>, pl: Set<PV>, s: AStep)
+    requires disc_ok(tr, q, p0, pl), disc_step_ok(s), q.contains(s.f), p0.subset_of(s.plugins), s.plugins.subset_of(pl)
+    ensures disc_ok(tr.push(s), q, p0, pl)
+{ reveal(disc_ok); }
 pub proof fn lemma_handled_mono(c0: Map<PV, Arc<String>>, tr: Seq<AStep>, m: PV, s: AStep)
     requires handled(c0, tr, tr.len() as int, m) ensures handled(c0, tr.push(s), (tr.len() + 1) as int, m)
 {
-    if has_fresh(tr, tr.len() as int, m) {
+    if has_disc(tr, tr.len() as int, m) {
         let i = choose|i: int| 0 <= i < tr.len() && (#[trigger] tr[i]).f == m;
         assert(tr.push(s)[i].f == m);
     }
 }
+/// a module that is a file_cache key enters the queue: its text comes from the start cache or an analysis of the run
+pub proof fn lemma_handled_enqueue_cached(c0: Map<PV, Arc<String>>, tr: Seq<AStep>, q: Set<PV>, nm: Set<PV>, c: Map<PV, Arc<String>>, h: PV)
+    requires handled_ok(c0, tr, q, nm), cache_src(c0, tr, c), c.contains_key(h) ensures handled_ok(c0, tr, q.insert(h), nm)
+{ reveal(handled_ok); reveal(cache_src); }
 /// a new module enters the queue (it is in new_modules until the analysis loop has looked at it)
 pub proof fn lemma_handled_enqueue(c0: Map<PV, Arc<String>>, tr: Seq<AStep>, q: Set<PV>, nm: Set<PV>, h: PV)
     requires handled_ok(c0, tr, q, nm) ensures handled_ok(c0, tr, q.insert(h), nm.insert(h))
@@ -312,14 +338,14 @@ pub proof fn lemma_handled_dequeue(c0: Map<PV, Arc<String>>, tr_b: Seq<AStep>, t
 // ---- where cached texts come from: the cache at the start, or an analysis of the run
 #[verifier::opaque]
 pub open spec fn cache_src(c0: Map<PV, Arc<String>>, tr: Seq<AStep>, c: Map<PV, Arc<String>>) -> bool {
-    forall|x: PV| #[trigger] c.contains_key(x) ==> c0.contains_key(x) || has_fresh(tr, tr.len() as int, x)
+    forall|x: PV| #[trigger] c.contains_key(x) ==> c0.contains_key(x) || has_disc(tr, tr.len() as int, x)
 }
 pub proof fn lemma_cache_src_mono(c0: Map<PV, Arc<String>>, tr: Seq<AStep>, c: Map<PV, Arc<String>>, s: AStep)
     requires cache_src(c0, tr, c) ensures cache_src(c0, tr.push(s), c)
 {
     reveal(cache_src);
-    assert forall|x: PV| #[trigger] c.contains_key(x) implies c0.contains_key(x) || has_fresh(tr.push(s), tr.push(s).len() as int, x) by {
-        if has_fresh(tr, tr.len() as int, x) {
+    assert forall|x: PV| #[trigger] c.contains_key(x) implies c0.contains_key(x) || has_disc(tr.push(s), tr.push(s).len() as int, x) by {
+        if has_disc(tr, tr.len() as int, x) {
             let i = choose|i: int| 0 <= i < tr.len() && (#[trigger] tr[i]).f == x;
             assert(tr.push(s)[i].f == x);
         }
@@ -331,7 +357,7 @@ pub proof fn lemma_cache_src_push(c0: Map<PV, Arc<String>>, tr: Seq<AStep>, c: M
     lemma_cache_src_mono(c0, tr, c, s);
     reveal(cache_src);
     let t2 = tr.push(s);
-    assert forall|x: PV| #[trigger] c2.contains_key(x) implies c0.contains_key(x) || has_fresh(t2, t2.len() as int, x) by {
+    assert forall|x: PV| #[trigger] c2.contains_key(x) implies c0.contains_key(x) || has_disc(t2, t2.len() as int, x) by {
         if x == s.f { assert(t2[tr.len() as int].f == x); } else { assert(c.contains_key(x)); }
     }
 }
@@ -347,4 +373,24 @@ pub proof fn lemma_snapc_push(snap: Map<PV, Snap>, c0: Map<PV, Arc<String>>, tr:
 {
     reveal(snapc_ok);
     assert forall|f: PV| #[trigger] snap.contains_key(f) implies cache_src(c0, tr.push(s), snap[f].cache) by { lemma_cache_src_mono(c0, tr, snap[f].cache, s); }
+}
+
+// ---- termination measure of the repaired scan: 2 * |U \ plugin files| + |U \ processed|  (a mark may un-process one file)
+pub open spec fn scan_measure(u: Set<PV>, pl: Set<PV>, pset: Set<PV>) -> nat { 2 * todo(u, pl) + todo(u, pset) }
+pub proof fn lemma_todo_remove(u: Set<PV>, a: Set<PV>, c: PV)
+    ensures todo(u, a.remove(c)) <= todo(u, a) + 1
+{
+    if u.contains(c) && a.contains(c) {
+        assert(u.difference(a.remove(c)) =~= u.difference(a).insert(c));
+    } else {
+        assert(u.difference(a.remove(c)) =~= u.difference(a));
+    }
+}
+/// marking h (a path of the universe that was no plugin file) and un-processing it lowers the measure
+pub proof fn lemma_measure_mark(u: Set<PV>, pl: Set<PV>, pset: Set<PV>, h: PV)
+    requires u.contains(h), !pl.contains(h)
+    ensures scan_measure(u, pl.insert(h), pset.remove(h)) < scan_measure(u, pl, pset), scan_measure(u, pl.insert(h), pset) < scan_measure(u, pl, pset)
+{
+    lemma_todo_insert(u, pl, h);
+    lemma_todo_remove(u, pset, h);
 }
